@@ -957,6 +957,24 @@ class World:
                 if isinstance(s, want) and repr(p) not in accounted:
                     self.vio('candidate-neither-site-nor-refusal', {'path': repr(p), 'stmt': _fmt(s)}, strategy=name)
                     break
+        if name == 'inline':
+            # sure candidates: every call of an FPy function, wherever in an expression it stands
+            from fpy2 import Function as _Function
+            seen = set()
+            for c in sites:
+                try:
+                    seen.add(id(c.resolve()))
+                except Exception:
+                    pass
+            for c, _why in refs:
+                try:
+                    seen.add(id(c.resolve()))
+                except Exception:
+                    pass
+            for node in _all_nodes(f.ast):
+                if type(node).__name__ == 'Call' and isinstance(getattr(node, 'fn', None), _Function) and id(node) not in seen:
+                    self.vio('candidate-neither-site-nor-refusal', {'call': _fmt(node)}, strategy=name)
+                    break
         if name in ROUNDING:
             for p, s in M.walk(f.ast):
                 if _canonical_rounding_block(s) and repr(p) not in accounted:
@@ -1145,6 +1163,28 @@ def _fp_contains(big, small) -> bool:
         if isinstance(x, tuple):
             stack.extend(x)
     return False
+
+
+def _all_nodes(x, _seen=None):
+    """Every AST node reachable from x (by reflection over slots, as the model's fingerprints do)."""
+    if _seen is None:
+        _seen = set()
+    if M._is_ast(x):
+        if id(x) in _seen:
+            return
+        _seen.add(id(x))
+        yield x
+        for name in M._slots(type(x)):
+            try:
+                v = getattr(x, name)
+            except AttributeError:
+                continue
+            if name == 'fn':
+                continue        # the callee object of a call: another program
+            yield from _all_nodes(v, _seen)
+    elif isinstance(x, (list, tuple)):
+        for v in x:
+            yield from _all_nodes(v, _seen)
 
 
 def _erase(text: str, known: set) -> str:
